@@ -70,24 +70,33 @@ def _loop_rules(r, fn, cfg, head, work, marker, what_work, what_marker):
                                              ends=lambda n: n.kind in ("iter", "exit") or is_raise(n)):
         r.violation(fn, fn.loc(s.ast), "after %s the crawler can go on (next item, time-slice exit or return) without "
                     "recording %s (path: %s)" % (what_work, what_marker, w.brief()), w)
-    # the time-slice exit of an iteration comes after its marker
-    tsn = [n for n in cfg.find(ts) if _inside(head.ast, n.ast)]
-    if not tsn:
-        raise AnchorVanished("%s: no 'raise TimeSliceExceeded' in the loop" % fn.qual)
-    for (n, w) in find_path_avoiding(cfg, lambda n: any(n is t for t in tsn), gate_node=lambda n: n is marker, kill=is_head):
-        r.violation(fn, fn.loc(n.ast), "the time slice can end between %s and %s: the item is repeated or lost on "
-                    "resume (path: %s)" % (what_work, what_marker, w.brief()), w)
     # the loop is left only by exhaustion (or by the raise)
     for (n, w) in find_path_avoiding(cfg, lambda n: n.kind == "exit",
                                      gate_edge=lambda n, lab: n is head and lab == "done"):
         r.violation(fn, fn.loc(head.ast), "%s can return normally without exhausting its loop: the remaining items are "
                     "reported as covered (path: %s)" % (short(fn), w.brief()), w)
+    # the time-slice exit of an iteration comes after its marker
+    tsn = [n for n in cfg.find(ts) if _inside(head.ast, n.ast)]
+    for (n, w) in find_path_avoiding(cfg, lambda n: any(n is t for t in tsn), gate_node=lambda n: n is marker, kill=is_head):
+        r.violation(fn, fn.loc(n.ast), "the time slice can end between %s and %s: the item is repeated or lost on "
+                    "resume (path: %s)" % (what_work, what_marker, w.brief()), w)
     r.count(4 * len(cfg.nodes))
 
 
+def _clock_locals(fnorm, n):
+    """Locals whose every reaching definition at n is ``time.time()``."""
+    out = {}
+    for name, ds in fnorm.rd.get(n.id, {}).items():
+        if not ds or any(d < 0 for d in ds):
+            continue
+        vals = [assign_value(fnorm.cfg.nodes[d], name) for d in ds]
+        if all(isinstance(v, ast.Call) and call_name(v) == "time.time" and not v.args for v in vals):
+            out[name] = "time.time()"
+    return out
+
+
 def _inside(loop_ast, node_ast):
-    return any(x is node_ast for st in loop_ast.body for x in own_nodes(st)) or \
-        any(x is node_ast for st in loop_ast.body for y in own_nodes(st) for x in ast.walk(y) if x is node_ast)
+    return any(x is node_ast for st in loop_ast.body for x in own_nodes(st))
 
 
 # --------------------------------------------------------------------------
@@ -165,23 +174,12 @@ def run(ctx: Context):
         for n in ccfg.nodes:
             if n is not chead and I in node_stores(n):
                 r.violation(sc, sc.loc(n.ast), "the prefix index %s is re-bound inside the loop" % I)
-        # both time-slice tests compare the clock with start + cpu_slice
-        for (fn, cfg, fnm, head, startp) in ((pp, pcfg, pn, phead, P_START), (sc, ccfg, cn, chead, first_positional_params(sc)[0])):
-            for t in [n for n in cfg.find(raises("TimeSliceExceeded")) if _inside(head.ast, n.ast)]:
-                def slice_over(n, lab, _f=fnm, _s=startp):
-                    ft = _f.edge_fact(n, lab)
-                    return bool(ft) and ft[0] in ("<=", "<") and ft[1] == "0" and \
-                        ft[2] == norm_src("time.time() - %s - self.cpu_slice" % _s)
-                for (n, w) in find_path_avoiding(cfg, lambda n, _t=t: n is _t, gate_edge=slice_over,
-                                                 kill=lambda n, _h=head: n is _h):
-                    r.violation(fn, fn.loc(n.ast), "TimeSliceExceeded is raised on a path that did not find "
-                                "time.time() >= %s + self.cpu_slice" % startp, w)
 
     # -- 2. resume predicate ---------------------------------------------------
     with ctx.rule("C27.2", "R3", "resume: a bucket is processed iff last-complete-bucket is None or < bucket, skipped "
                   "only under bucket <= last-complete-bucket; sorted buckets (or the cache entry of this prefix "
                   "index), sorted prefixes, loop from last_complete_prefix_index+1; index<->prefix mapping in "
-                  "load_state/save_state", expected=9) as r:
+                  "load_state/save_state", expected=10) as r:
         LC = norm_src("self.state['last-complete-bucket']")
 
         def go(n, lab):
@@ -219,19 +217,6 @@ def run(ctx: Context):
                 r.violation(pp, pp.loc(phead.ast), "a bucket can be passed over without process_bucket although "
                             "%s <= last-complete-bucket was not established: the bucket is not covered in this cycle "
                             "(path: %s)" % (B, w.brief()), w)
-        # the value compared is read in this iteration (not cached across buckets)
-        for n in pcfg.nodes:
-            if n.kind == "test" and _inside(phead.ast, n.ast):
-                for x in own_nodes(n.ast):
-                    if isinstance(x, ast.Name) and x.id not in (B,) and x.id not in pp.params:
-                        rd = pn.rd.get(n.id, {}).get(x.id, frozenset())
-                        for d in rd:
-                            if d >= 0 and not _inside(phead.ast, pcfg.nodes[d].ast):
-                                val = assign_value(pcfg.nodes[d], x.id)
-                                if val is not None and "last-complete-bucket" in ast.dump(val):
-                                    r.violation(pp, pp.loc(n.ast), "the resume test uses a last-complete-bucket value read "
-                                                "before the loop (%s); it is stale after the first processed bucket" % x.id)
-
         # -- bucket list of prefix i: listed and sorted, or the cache entry keyed by i
         lst = [n for n in ccfg.nodes if n.kind == "stmt" and isinstance(n.ast, ast.Assign)
                and contains_call(n.ast.value, "listdir")]
@@ -404,16 +389,17 @@ def run(ctx: Context):
     with ctx.rule("C27.3", "R2", "start_slice saves the state on the normal and on the TimeSliceExceeded exit and "
                   "re-arms its timer unless stopped; stopService and the end of a cycle save; save_state writes "
                   "get_state() through the serializer; only start_slice enters start_current_prefix; the lease "
-                  "crawler inherits the traversal", expected=8) as r:
+                  "crawler inherits the traversal", expected=6) as r:
         scfg2 = ss.cfg()
         call_n = _one(scfg2.find(has_call_named("self.start_current_prefix")), "self.start_current_prefix call in start_slice")
         r.site(ss, call_n.ast, "traversal call")
         c = calls_at(call_n, "start_current_prefix")[0]
         a0 = arg(c, 0, "start_slice")
         snorm = FlowNorm(ss)
-        r.require(a0 is not None and snorm.norm(call_n, a0) == "time.time()", ss, ss.loc(c),
-                  "the slice start handed to the traversal is %s, not the clock at slice start" % (
-                      snorm.norm(call_n, a0) if a0 is not None else None))
+        r.require(isinstance(a0, ast.Name) and a0.id in _clock_locals(snorm, call_n), ss, ss.loc(c),
+                  "the slice start handed to the traversal is %s, not a time.time() reading of this slice" % (
+                      src(ss, a0) if a0 is not None else None))
+        # ... taken in this call, before the traversal (a stale start would end every slice at once)
         handlers = [cfg_n for (d, lab) in scfg2.succ[call_n.id] if lab == "exc"
                     for cfg_n in [scfg2.nodes[d]] if cfg_n.kind == "except"]
         catching = [h for h in handlers if h.ast.type is not None and "TimeSliceExceeded" in
@@ -459,12 +445,7 @@ def run(ctx: Context):
         r.site(sta, None, "first slice scheduled")
         for (n, w) in find_path_avoiding(sta.cfg(), lambda n: n.kind == "exit", gate_node=rearm):
             r.violation(sta, sta.loc(), "startService does not schedule start_slice", w)
-        # end of cycle
-        csave = ccfg.find(save)
-        for n in csave:
-            r.site(sc, n.ast, "save_state at cycle end")
-        for (n, w) in find_path_avoiding(ccfg, lambda n: n.kind == "exit", gate_node=save):
-            r.violation(sc, sc.loc(), "a finished cycle is not saved", w)
+        # (the end of a cycle is saved by the save_state() that follows the traversal call in start_slice)
         # save_state -> serializer.save(self.get_state()) after the prefix name is stored
         sv = idx.func(SC + ".save_state")
         vcfg = sv.cfg()
@@ -522,11 +503,19 @@ def run(ctx: Context):
         cfg = f.cfg()
         fnm = FlowNorm(f)
         dump = _one(cfg.find(has_call("_dump_json_to_file")), "_dump_json_to_file call in _LeaseStateSerializer.save")
-        move = _one(cfg.find(has_call("move_into_place")), "move_into_place call in _LeaseStateSerializer.save")
+        moves = cfg.find(has_call("move_into_place"))
         r.site(f, dump.ast, "write temporary")
-        r.site(f, move.ast, "move into place")
         dc = calls_at(dump, "_dump_json_to_file")[0]
-        mc = calls_at(move, "move_into_place")[0]
+        if len(moves) != 1:
+            r.site(f, None, "move into place (absent)")
+            r.violation(f, f.loc(dc), "the state is dumped to %s and not moved into place by one move_into_place call: "
+                        "the state file is rewritten in place, a crash mid-write leaves a truncated file and the "
+                        "crawler restarts from scratch" % FlowNorm(f).norm(dump, arg(dc, 1)))
+            moves = [dump]
+        move = moves[0]
+        if move is not dump:
+            r.site(f, move.ast, "move into place")
+        mc = calls_at(move, "move_into_place")[0] if move is not dump else None
         data_p = first_positional_params(f)[0]
         r.require(isinstance(arg(dc, 0), ast.Name) and arg(dc, 0).id == data_p, f, f.loc(dc),
                   "the state written is %s, not the parameter %s" % (src(f, arg(dc, 0)), data_p))
@@ -534,9 +523,10 @@ def run(ctx: Context):
         r.require(tmp != "self._path" and re.match(r"^self\._path\.(siblingExtension|temporarySibling)\(.*\)$", tmp) is not None,
                   f, f.loc(dc), "the state is dumped to %s: the state file is written in place, a crash mid-write leaves "
                   "a truncated file and the crawler restarts the cycle from scratch" % tmp)
-        r.require(fnm.norm(move, arg(mc, 0)) == tmp + ".path" and fnm.norm(move, arg(mc, 1)) == "self._path.path",
-                  f, f.loc(mc), "move_into_place(%s, %s): expected (%s.path, self._path.path)" % (
-                      fnm.norm(move, arg(mc, 0)), fnm.norm(move, arg(mc, 1)), tmp))
+        if mc is not None:
+            r.require(fnm.norm(move, arg(mc, 0)) == tmp + ".path" and fnm.norm(move, arg(mc, 1)) == "self._path.path",
+                      f, f.loc(mc), "move_into_place(%s, %s): expected (%s.path, self._path.path)" % (
+                          fnm.norm(move, arg(mc, 0)), fnm.norm(move, arg(mc, 1)), tmp))
         for (n, w) in find_path_avoiding(cfg, lambda n: n is move, gate_node=lambda n: n is dump):
             r.violation(f, f.loc(n.ast), "the temporary file is moved into place before it is written", w)
         for (n, w) in find_path_avoiding(cfg, lambda n: n.kind == "exit", gate_node=lambda n: n is move):
@@ -570,7 +560,7 @@ def run(ctx: Context):
     with ctx.rule("C27.5", "R1/R3", "cycle counter: current-cycle = last-cycle-finished + 1 (0 the first time) only when "
                   "no cycle is in progress; last-cycle-finished = cycle and the reset of current-cycle, "
                   "last-complete-bucket and last_complete_prefix_index only after the prefix loop is exhausted and "
-                  "before the final save", expected=7) as r:
+                  "before the final save", expected=8) as r:
         CUR = norm_src("self.state['current-cycle']")
         LCF = norm_src("self.state['last-cycle-finished']")
         done = lambda n, lab: n is chead and lab == "done"
@@ -611,21 +601,22 @@ def run(ctx: Context):
         r.site(sc, c, "cycle passed on")
         r.require(cn.norm(cwork, arg(c, 0, "cycle")) == CUR, sc, sc.loc(c),
                   "process_prefixdir is given cycle %s" % cn.norm(cwork, arg(c, 0, "cycle")))
-        fin = _one(ccfg.find(_state_store(cn, "last-cycle-finished")), "store of state['last-cycle-finished']")
+        fins = ccfg.find(_state_store(cn, "last-cycle-finished"))
+        if not fins:
+            raise AnchorVanished("start_current_prefix: store of state['last-cycle-finished']")
+        fin = fins[-1]
         r.site(sc, fin.ast, "last-cycle-finished")
-        fv = cn.norm(fin, _sub_store(cn, fin)[2])
-        r.require(fv == CUR, sc, sc.loc(fin.ast), "last-cycle-finished is set to %s, not to the cycle that ran: cycle "
-                  "numbers do not increase by one" % fv)
+        for fx in fins:
+            fv = cn.norm(fx, _sub_store(cn, fx)[2])
+            r.require(fv == CUR, sc, sc.loc(fx.ast), "last-cycle-finished is set to %s, not to the cycle that ran: "
+                      "cycle numbers do not increase by one" % fv)
         resets = [
             ("current-cycle = None", _state_store(cn, "current-cycle", lambda n, v: _is_none(v))),
             ("last-complete-bucket = None", _state_store(cn, "last-complete-bucket", lambda n, v: _is_none(v))),
             ("last_complete_prefix_index = -1", lambda n: stores("self.last_complete_prefix_index")(n)
              and cn.norm(n, assign_value(n, "self.last_complete_prefix_index")) == norm_src("-1")),
         ]
-        final_save = ccfg.find(has_call_named("self.save_state"))
-        if not final_save:
-            raise AnchorVanished("start_current_prefix no longer saves at the end of a cycle")
-        for (what, pred) in resets + [("last-cycle-finished = cycle", lambda n: n is fin)]:
+        for (what, pred) in resets + [("last-cycle-finished = cycle", lambda n: any(n is x for x in fins))]:
             nodes = ccfg.find(pred)
             if not nodes:
                 r.violation(sc, sc.loc(), "at the end of a cycle '%s' is missing: the next cycle resumes from the old "
@@ -636,12 +627,12 @@ def run(ctx: Context):
                 for (t, w) in find_path_avoiding(ccfg, lambda x, _n=n: x is _n, gate_edge=done):
                     r.violation(sc, sc.loc(n.ast), "'%s' happens before every prefix was processed (path: %s)" % (
                         what, w.brief()), w)
-            for (t, w) in find_path_avoiding(ccfg, lambda x: any(x is s for s in final_save), gate_node=pred):
-                r.violation(sc, sc.loc(t.ast), "the end-of-cycle save happens without '%s'" % what, w)
-        # after the reset nothing re-marks progress before the save
-        for (s, w) in find_path_from_to_avoiding(ccfg, lambda n: n is fin,
-                                                 gate_node=lambda n: any(n is x for x in final_save)):
-            r.violation(sc, sc.loc(fin.ast), "a finished cycle can return without save_state()", w)
+            for (t, w) in find_path_avoiding(ccfg, lambda x: x.kind == "exit", gate_node=pred):
+                r.violation(sc, sc.loc(), "a cycle can end (normal return) without '%s' (path: %s)" % (what, w.brief()), w)
+            # any save inside the function after the loop sees the reset state
+            for (t, w) in find_path_avoiding(ccfg, lambda x: has_call_named("self.save_state")(x) and not _inside(chead.ast, x.ast),
+                                             gate_node=pred):
+                r.violation(sc, sc.loc(t.ast), "the end-of-cycle save happens before '%s'" % what, w)
         # finished_cycle gets the same number
         fc = ccfg.find(has_call_named("self.finished_cycle"))
         for n in fc:
